@@ -82,8 +82,34 @@ def st_mat_over_chain(draw, tier):
     return (universe, leaves, out)
 
 
+@st.composite
+def st_roundtrip_over_pruned_chain(draw, tier):
+    """program -> transfer to another engine -> chain with a doomed leaf there -> transfer back (+ one operation)."""
+    from vf.core.gen import st_unary_node
+    from vf.core.prog import engine_of, schema
+
+    universe, leaves, prog = draw(st_program(cfg(tier)))
+    cols = schema(prog, leaves)
+    a = engine_of(prog, leaves)
+    b = draw(st.sampled_from([e for e in (0, 1, 2) if e != a]))
+    i = len(leaves)
+    doomed = (f"L{i}", tuple(sorted(cols, key=lambda t: t.qualified_name)), (), b, "doomed", (0, 0), "plain")
+    leaves = tuple(leaves) + (doomed,)
+    moved = ("xfer", prog, b)
+    pair = (("leaf", i), moved) if draw(st.booleans()) else (moved, ("leaf", i))
+    out = ("xfer", ("chain",) + pair, a)
+    if draw(st.booleans()):
+        out = draw(st_unary_node(out, cols, universe, ("sel", "slice", "proj", "dedup", "calc"), cfg(tier))) or out
+    return (universe, leaves, out)
+
+
 def strategy(tier):
-    return st.tuples(st.one_of(st_program(cfg(tier)), st_program(cfg(tier)), st_program(cfg(tier)), st_mat_over_chain(tier)), st.integers(1, 3))
+    return st.tuples(
+        st.one_of(
+            st_program(cfg(tier)), st_program(cfg(tier)), st_program(cfg(tier)), st_mat_over_chain(tier), st_roundtrip_over_pruned_chain(tier)
+        ),
+        st.integers(1, 3),
+    )
 
 
 def has_iter_join(prog, leaves):
@@ -112,6 +138,45 @@ def visited_materializations(tree, had_payload):
             stack.append(r.target)
         elif isinstance(r, BinaryOperationRelation):
             stack.extend([r.rhs, r.lhs])
+
+
+def reuse_cached_materializations(prog, rels, leaves, env, proc, stats, ctx):
+    """After processing, build a selection on top of each materialization of the input tree that now carries a payload,
+    evaluate it, then evaluate the materialization itself again: both must still agree with direct evaluation (the
+    cached payload must not have been altered by compiling / executing something built on it)."""
+    from lsst.daf.relation import Materialization
+
+    from vf.core.expr import lib_p
+    from vf.core.prog import schema
+    from vf.core.tags import sorted_tags
+
+    done = 0
+    for node in walk(prog):
+        if node[0] != "mat" or id(node) not in rels or done >= 2:
+            continue
+        rel = rels[id(node)]
+        cached = [n for n in lib_nodes(rel) if isinstance(n, Materialization) and n.name == node[2]]
+        if not cached or cached[0].payload is None:
+            continue
+        cols = sorted_tags(schema(node, leaves))
+        if not cols:
+            continue
+        done += 1
+        pred = ("ge", ("ref", cols[0]), ("lit", 0))
+        sel_node = ("sel", node, pred)
+        for what, n, r in (("selection on cached materialization", sel_node, None), ("cached materialization again", node, rel)):
+            try:
+                if r is None:
+                    r = rel.with_rows_satisfying(lib_p(pred))
+                got = execute_processed(env, proc.process(r))
+            except DatabaseError:
+                return
+            except Exception as e:
+                raise Violation("reuse-raised", f"{what}: {type(e).__name__}: {str(e)[:200]}; materialization {node[2]!r}; {ctx}", sig=exc_sig(e))
+            bad = compare(ev_multi(n, leaves), got)
+            if bad:
+                raise Violation("cached-rows-changed", f"{what} ({node[2]!r}): {bad}; {ctx}", what=what.split(" ")[0])
+        stats.c["reuse:cached-materialization"] += 1
 
 
 def evaluable_nodes(rel):
@@ -204,6 +269,8 @@ def run_case(case, stats):
             if bad:
                 raise Violation("rows-differ", f"call #{call}: {bad}; processed {str(result)[:300]}; {ctx}", call=call)
             stats.c["label:" + ("ordered" if truth.ordered else "det" if truth.det else "ambiguous")] += 1
+        # later evaluations built on the (now cached) materializations of the input tree return the cached rows
+        reuse_cached_materializations(prog, rels, leaves, env, proc, stats, ctx)
         # hook audit
         per_name = {}
         for hook, rel, dest, name in proc.log:
